@@ -429,7 +429,25 @@ func freshInputsRule(c *Ctx, rule string) {
 	}
 	liveT := P.Live()
 	for _, f := range P.ModuleFuncs("transport") {
-		if liveT[f] && f.Parent() == nil && allocsDH(f) && len(callSitesIn(f, false, hopID("transport", "Server", "readPQClientRequestHidden"))) > 0 {
+		if !(liveT[f] && f.Parent() == nil && allocsDH(f)) {
+			continue
+		}
+		callsReader := func(g *ssa.Function) bool {
+			return len(callSitesIn(g, false, hopID("transport", "Server", "readPQClientRequestHidden"))) > 0
+		}
+		hidden := callsReader(f)
+		if !hidden {
+			// a constructor cut out of the function that hands the state to the hidden-request reader
+			if edges := P.Callers(f); len(edges) > 0 {
+				hidden = true
+				for _, e := range edges {
+					if e.Site == nil || e.Site.Common().StaticCallee() != f || !callsReader(e.Caller.Func) {
+						hidden = false
+					}
+				}
+			}
+		}
+		if hidden {
 			creators = append(creators, f)
 		}
 	}
